@@ -484,7 +484,7 @@ func init() {
 			"is run against 9 registrations of the same schema (generated code by name; fresh protodesc copy; descriptor set with its full import closure rebuilt (fresh descriptors for every imported type), also with a resolver that knows nothing; copy without parent file; resolver that knows nothing; resolver that knows only request types; dynamically typed google.api.http options; GlobalTypes resolver for a fresh copy) and against vanguardgrpc.NewTranscoder vs NewService-by-name over one grpc.Server; " +
 			"every variant's client- and backend-side semantic outcome must equal the generated-code variant's. Drift: a schema whose content differs from the linked-in file of the same path (Book gets an extra field) must behave as the same content registered under another path (4 requests x 3 targets). Non-trivial = (request, target, variant) whose message types resolve to a different Go type than in the baseline.",
 		Assume:    []string{"messages are compared after decoding against the generated descriptors"},
-		Scenarios: []Scenario{{Name: "variants", Fn: c20Scenario, QuickBound: 0, ThoroughBound: 0}, {Name: "drift", Fn: c20Drift, QuickBound: 0, ThoroughBound: 0}},
+		Scenarios: []Scenario{{Name: "variants", Fn: c20Scenario, QuickBound: 0, ThoroughBound: 0}, {Name: "drift", Fn: c20Drift, QuickBound: 0, ThoroughBound: 0}, {Name: "any-type-urls", Fn: c20AnyURLs, QuickBound: 0, ThoroughBound: 0}},
 	})
 }
 
@@ -831,4 +831,67 @@ func c20Drift(c *xplor.Ctx) {
 		c.Fail("harness.setup", "the drift scenario does not exercise the extra field: %s", short(other))
 	}
 	c.Outcome("drift:" + strings.SplitN(same, " ", 2)[0])
+}
+
+// ---- type URLs: a dynamically described service resolves the types inside google.protobuf.Any
+// through its default resolver (fallbackResolver); that must behave like a plain, correct
+// resolver handed in with WithTypeResolver, for every legal spelling of a type URL.
+
+func c20AnyURLs(c *xplor.Ctx) {
+	urls := []string{"type.googleapis.com/verif.v1.Msg", "https://type.googleapis.com/verif.v1.Msg", "schemas.example.com/acme/parcels/verif.v1.Msg", "/verif.v1.Msg", "type.googleapis.com/google.protobuf.Duration", "example.com/a/b/google.protobuf.Duration"}
+	u := urls[c.Free("type-url", len(urls))]
+	form := []wire.Form{wire.ConnectUnary, wire.GRPCWeb, wire.REST}[c.Free("client", 3)]
+	tgt := c.Free("target", 2)
+	tp := []vanguard.Protocol{vanguard.ProtocolGRPC, vanguard.ProtocolConnect}[tgt]
+	c.Attr("request", "any:"+u)
+	c.Attr("target", tp.String())
+	inner := `"name":"inside"`
+	if strings.HasSuffix(u, "Duration") {
+		inner = `"value":"1.500s"`
+	}
+	body := `{"name":"outer","anyValue":{"@type":"` + u + `",` + inner + `}}`
+	run := func(opts ...vanguard.ServiceOption) string {
+		backendView := ""
+		be := &world.Backend{}
+		be.Respond = func(b *world.Backend, r *http.Request) *world.Reply {
+			for _, m := range b.Parsed.Msgs {
+				backendView += canonMsg(b.Parsed.Codec, world.MsgDesc(), m) + ";"
+			}
+			return world.EchoReply(b.Parsed, b.Parsed.Msgs, "", nil) // echo: the Any comes back
+		}
+		tc, err := world.Build(world.Config{Protocols: []vanguard.Protocol{tp}, Codecs: []string{"proto"}, NoCompress: true, MaxMsg: 1 << 16, ExtraOpts: opts}, be)
+		if err != nil {
+			return "NewTranscoder error: " + err.Error()
+		}
+		var spec *drive.ReqSpec
+		if form == wire.REST {
+			spec = &drive.ReqSpec{Method: "POST", Target: "/v1/unary", Header: http.Header{"Content-Type": {"application/json"}}, ContentLength: -1, Body: drive.NewBody([]byte(body))}
+		} else {
+			spec = world.SpecFromClient(&wire.ClientReq{Form: form, Path: world.SvcPath + "Unary", Codec: "json", Msgs: [][]byte{[]byte(body)}})
+		}
+		ex, err := world.Do(tc, spec)
+		if err != nil {
+			return "build error: " + err.Error()
+		}
+		pr := wire.ParseClientResponse(form, ex.Rec.Status, ex.Rec.HeadHeaders(), ex.Rec.BodyBytes.Bytes(), ex.Rec.Trailers)
+		v := fmt.Sprintf("status=%d end=%d/%q|", ex.Rec.Status, pr.End.Code, short(pr.End.Message))
+		for _, m := range pr.Msgs {
+			v += canonJSON(m) + ";"
+		}
+		if ex.Panic != nil {
+			v += " PANIC " + ex.Panic.Value
+		}
+		return v + " || backend: " + backendView
+	}
+	def, explicit := run(), run(vanguard.WithTypeResolver(wire.Resolver()))
+	c.AddEvaluations(1)
+	c.Nontrivial("any|" + u + "|" + form.String() + "|" + tp.String())
+	if def != explicit {
+		c.Attr("variant", "default resolver of a dynamically described service")
+		c.Fail("C20.variant-behaves-differently", "a message with a google.protobuf.Any whose type URL is %q (%s client, %s/proto target)\n with a plain resolver given by WithTypeResolver: %s\n with the service's default resolver:            %s", u, form, tp, short(explicit), short(def))
+	}
+	if !strings.Contains(explicit, "status=200") {
+		c.Fail("harness.setup", "the reference run does not succeed: %s", short(explicit))
+	}
+	c.Outcome("any:" + strings.SplitN(def, " ", 2)[0])
 }
